@@ -39,9 +39,14 @@ try:
     if os.path.exists(mp):
         meta = json.load(open(mp))
     # demo files
-    demo_dirs = [d for d in ('seeddemo',) if os.path.isdir(os.path.join(seed, d))]
-    for d in demo_dirs:
-        shutil.copytree(os.path.join(seed, d), os.path.join(wt, d))
+    # demo files: every untracked file of the seed worktree outside SEED/ (the
+    # demonstration may have to live under amd/... to import internal packages)
+    _, lst = run(['git', '-C', seed, 'ls-files', '--others', '--exclude-standard'])
+    demo_files = [f for f in lst.splitlines() if f and not f.startswith('SEED/')]
+    for f in demo_files:
+        os.makedirs(os.path.dirname(os.path.join(wt, f)) or wt, exist_ok=True)
+        shutil.copy(os.path.join(seed, f), os.path.join(wt, f))
+    res['demo_files'] = demo_files
     os.makedirs(os.path.join(wt, 'SEED'), exist_ok=True)
     for f in os.listdir(os.path.join(seed, 'SEED')):
         shutil.copy(os.path.join(seed, 'SEED', f), os.path.join(wt, 'SEED', f))
@@ -80,9 +85,9 @@ finally:
         shutil.copy(os.path.join(seed, 'SEED', 'patch.diff'), dst)
     if os.path.exists(os.path.join(seed, 'SEED', 'run_demo.sh')):
         shutil.copy(os.path.join(seed, 'SEED', 'run_demo.sh'), dst)
-    for d in ('seeddemo',):
-        if os.path.isdir(os.path.join(seed, d)):
-            shutil.copytree(os.path.join(seed, d), os.path.join(dst, d))
+    for f in res.get('demo_files', []):
+        os.makedirs(os.path.dirname(os.path.join(dst, f)) or dst, exist_ok=True)
+        shutil.copy(os.path.join(seed, f), os.path.join(dst, f))
     m = {'breaks_property': ID,
          'summary': meta.get('summary'), 'needs_to_manifest': meta.get('needs_to_manifest'),
          'why_tests_pass': meta.get('why_tests_pass'), 'files_changed': meta.get('files_changed'),
